@@ -262,6 +262,11 @@ func init() {
 						if ctx.Quick && perGroup[s.Site+"#"+s.Hint] > 6 {
 							continue
 						}
+						// thorough: up to 16 call chains per group (the chains of a group differ only in
+						// the outer frames; 70k executions for all of them took 100 minutes)
+						if !ctx.Quick && perGroup[s.Site+"#"+s.Hint] > 16 {
+							continue
+						}
 						picks := map[string]int{"first": 0, "last": len(s.Seqs) - 1, "random": r.Intn(len(s.Seqs))}
 						if !ctx.Quick && len(s.Seqs) > 8 {
 							picks["random2"] = r.Intn(len(s.Seqs))
